@@ -20,7 +20,30 @@ func (pass *ReplaceReference) Process(schemas []*ast.Schema) ([]*ast.Schema, err
 		OnStruct:      pass.processStruct,
 	}
 
-	return visitor.VisitSchemas(schemas)
+	// the entry point of a schema designates an object by its name: it is not a
+	// use of the reference, and its type has to keep saying what its name says.
+	entryPointTypes := make([]ast.Type, 0, len(schemas))
+	for _, schema := range schemas {
+		entryPointTypes = append(entryPointTypes, schema.EntryPointType)
+	}
+
+	newSchemas, err := visitor.VisitSchemas(schemas)
+	if err != nil {
+		return nil, err
+	}
+
+	for i, schema := range newSchemas {
+		if i >= len(entryPointTypes) {
+			break
+		}
+
+		previous := entryPointTypes[i]
+		if previous.IsRef() && pass.From.MatchesRef(previous.AsRef()) {
+			schema.EntryPointType = previous
+		}
+	}
+
+	return newSchemas, nil
 }
 
 func (pass *ReplaceReference) processRef(_ *Visitor, _ *ast.Schema, def ast.Type) (ast.Type, error) {
